@@ -3,7 +3,8 @@
    wfv v: every number satisfies the RFC 8259 number grammar and every string / key is a
    sequence of Unicode scalar values -- exactly what the safe API can construct. *)
 From JsonSyntax Require Import Base.Prelude Base.Value Base.Unicode Model.Parser Model.EntryPoints
-  Model.Printer Spec.Grammar Spec.Minimal Spec.Layout Proofs.PrintGrammar Proofs.RoundTrip Proofs.PrinterTheorems.
+  Model.Printer Spec.Grammar Spec.Minimal Spec.Layout Proofs.PrintGrammar Proofs.RoundTrip Proofs.PrinterTheorems
+  Base.ConstSyntax Generated.Consts Proofs.ConstsTie.
 
 Theorem C04_roundtrip : forall o v, wfv v ->
   exists t m, print_with o v = Some t /\ parse_str t = Ok (v, m).
@@ -34,9 +35,23 @@ Example C04_example :
   end = true.
 Proof. vm_compute. reflexivity. Qed.
 
+
+(* ---- static tie of the constant tables (DESIGN.md section 4, "Translator tie for constant tables"):
+   `src_..` (Generated/Consts.v) is what lib/const_translate.py evaluates the named function / constant of
+   the Rust source to -- regenerated from the tree under check at the start of every `bin/check` of this
+   property --, the right-hand side is the same data computed from the model's own function
+   (Base/ConstSyntax.v: set_of = the maximal runs of domain points where a predicate holds) ---- *)
+Theorem C04_presets_from_source :
+  src_preset_pretty = cval_of_popts Printer.pretty /\
+  src_preset_compact = cval_of_popts Printer.compact /\
+  src_preset_inline = cval_of_popts Printer.inline /\
+  (forall a b, cval_of_popts a = cval_of_popts b -> a = b).
+Proof. exact ConstsTie.presets_from_source. Qed.
+
 Print Assumptions C04_roundtrip.
 Print Assumptions C04_output_is_strict_json.
 Print Assumptions C04_denotes.
 Print Assumptions C04_never_panics.
 Print Assumptions C04_string_literal_denotes.
 Print Assumptions C04_example.
+Print Assumptions C04_presets_from_source.
